@@ -1,4 +1,4 @@
-import ErdosVerif.Lemmas.GreedyWf
+import ErdosVerif.Lemmas.GreedyOk
 /-!
 # C13 — EDF, FIFO and LSF honour their priority order (no priority inversion)
 
@@ -279,6 +279,39 @@ theorem lower_priority_irrelevant (cfg : Cfg) (offer : List Offered) (live : Lis
   refine ⟨by rw [hord]; simpa using take_succ_append pre t _, ?_⟩
   rw [hds, hds', ← hlen]
   simp
+
+theorem keyError_filter (cfg : Cfg) (offer : List Offered) (p : Offered → Bool)
+    (h : keyError? cfg offer = none) : keyError? cfg (offer.filter p) = none := by
+  unfold keyError? at h ⊢
+  split
+  · rename_i hpol
+    simp only [hpol] at h
+    split at h
+    · cases h
+    · rename_i hany
+      split
+      · rename_i hany'
+        exfalso
+        apply hany
+        obtain ⟨o, ho, hb⟩ := List.any_eq_true.mp hany'
+        exact List.any_eq_true.mpr ⟨o, (List.mem_filter.mp ho).1, hb⟩
+      · rfl
+  · rfl
+
+/-- On loader-built inputs (`NiceTask`: at least one strategy, plain strategies with one entry per
+resource name) the reduced invocation of `lower_priority_irrelevant` does return, so that theorem
+is not vacuous: the decisions for `t` and everything before it are those of the invocation from
+which every strictly-lower-priority task was withdrawn. -/
+theorem lower_priority_irrelevant_total (cfg : Cfg) (offer : List Offered) (live : List Pool) (r : Result)
+    (h : schedule cfg offer live = .ok r) (hn : ∀ o ∈ offer, NiceTask o)
+    (pre post : List Offered) (t : Offered) (hsplit : r.order = pre ++ t :: post) :
+    ∃ r', schedule cfg (offer.filter (fun u => !prioLt cfg t u)) live = .ok r' ∧
+      r'.order.take (pre.length + 1) = pre ++ [t] ∧
+      r'.placements.take (pre.length + 1) = r.placements.take (pre.length + 1) := by
+  obtain ⟨hc, hk, _, _⟩ := schedule_ok cfg offer live r h
+  obtain ⟨r', h'⟩ := schedule_ok_of_nice cfg (offer.filter (fun u => !prioLt cfg t u)) live r.virt0 hc
+    (keyError_filter cfg offer _ hk) (fun o ho => hn o (List.mem_filter.mp ho).1)
+  exact ⟨r', h', lower_priority_irrelevant cfg offer live r r' h pre post t hsplit h'⟩
 
 /-! ### LSF as it is: the reported answer can leave a task unplaced although it fits -/
 
